@@ -884,7 +884,7 @@ func c11BoundsFor(thorough bool) []c11Bounds {
 	if thorough {
 		return []c11Bounds{
 			{NMax: 3, S: 4, Unions: 0, Binary: 0, MaxTuples: 3},
-			{NMax: 2, S: 3, Unions: 2, Binary: 2, MaxTuples: 3},
+			{NMax: 2, S: 3, Unions: 2, Binary: 1, MaxTuples: 3},
 			{NMax: 3, S: 3, Unions: 1, Binary: 2, MaxTuples: 2},
 		}
 	}
